@@ -115,6 +115,13 @@ impl Schedule {
         self.inner.is_empty()
     }
 
+    /// Verification hook (only with `--cfg opening_hours_verif`): read-only access to the raw
+    /// sequence of ranges, before `into_iter()` fills holes and merges neighbours.
+    #[cfg(opening_hours_verif)]
+    pub fn verif_ranges(&self) -> &[TimeRange] {
+        &self.inner
+    }
+
     /// Check if a schedule is always closed.
     pub(crate) fn is_always_closed(&self) -> bool {
         self.inner.iter().all(|rg| rg.kind == RuleKind::Closed)
